@@ -3,6 +3,9 @@ INIT Init
 NEXT Next
 INVARIANT PowRefines
 INVARIANT EuclidRefines
+INVARIANT EntryJudgeAccepts
+INVARIANT EntryJudgeSharp
+INVARIANT BigJudgeSound
 INVARIANT ManyRefines
 INVARIANT FFTRefines
 INVARIANT FFTInverse
